@@ -5,6 +5,7 @@ go 1.21
 require (
 	cuelang.org/go v0.6.0
 	github.com/pelletier/go-toml v1.9.5
+	github.com/spf13/pflag v1.0.5
 	github.com/vimeo/dials v0.0.0
 	gopkg.in/yaml.v2 v2.4.0
 )
@@ -12,9 +13,11 @@ require (
 require (
 	github.com/cockroachdb/apd/v3 v3.2.1 // indirect
 	github.com/fatih/structtag v1.2.0 // indirect
+	github.com/fsnotify/fsnotify v1.8.0 // indirect
 	github.com/google/uuid v1.6.0 // indirect
 	github.com/mpvl/unique v0.0.0-20150818121801-cbe035fff7de // indirect
 	golang.org/x/net v0.30.0 // indirect
+	golang.org/x/sys v0.26.0 // indirect
 	golang.org/x/text v0.19.0 // indirect
 	gopkg.in/yaml.v3 v3.0.1 // indirect
 )
